@@ -41,6 +41,19 @@ CLAIMED = {
             "alone in a fresh process lifetime, which gives the iterations to completion and the bytes a clean-slate set-up "
             "must reproduce. Crash / hang / timeout classification per op. Overlap histories are reported as known finding KF-1.",
             "5 (C10)"),
+    "C11": ("The native engine is memory-safe on every valid script",
+            "the seeded lifecycle histories of C10 over degenerate shapes executed on an ASan+UBSan+_GLIBCXX_ASSERTIONS build, "
+            "with allocator-fill twins and a plain-build twin whose event logs must be identical",
+            "Seeded exploration on instrumented native code: every sanitizer report is a violation; allocator fill bytes "
+            "0x00/0xbe and the plain build must give the same event log digest, which exposes reads of uninitialised heap "
+            "and of freed marshalling buffers (substitute for MemorySanitizer, which is not available).", "5 (C11)"),
+    "C14": ("Initial-state processing yields a valid molecular state with the right totals",
+            "seeded batches of set-ups over seeds, states, modes, engines and space types; exact and statistical oracles on the "
+            "state read right after each set-up; bounded-step termination via the loop-budget hook",
+            "Seeded exploration: integrality, non-negativity, zero preservation and floor totals are exact oracles; Poisson "
+            "mode is tested per entry with an exact Poisson tail test over 200 seeds (p < 1e-10) plus pooled variance / "
+            "zero-class / neighbour-correlation statistics; termination is a step bound (H2), reproducibility is bitwise.",
+            "5 (C14)"),
 }
 
 NA = {
